@@ -30,6 +30,7 @@ mod child;
 mod fuzzglue;
 include!("fuzzbody.rs");
 mod gen;
+mod machine;
 mod pq;
 
 use engine::{Env, Tier};
